@@ -4,7 +4,7 @@
 From Coq Require Import Ascii String List Bool Arith ZArith NArith.
 From PTBase Require Import Exn PyStr PyNum PyVal Fmt FixedFormat Wire.
 From Gen Require Import GenTables GenSections.
-From P Require Import Comb Obj Sections SectionsB T2DataIO Codec.
+From P Require Import Comb Obj Fields Sections SectionsB Rec SecRocks SecMesh SecGener SecMisc SecParam T2DataIO Whole Example Codec.
 Import ListNotations.
 
 Definition decode_obj (toks : list str) : res t2d :=
@@ -32,6 +32,33 @@ Fixpoint split_fast (cur : str) (acc : list str) (s : str) : list str :=
   | [] => rev_append acc [rev_append cur []]
   | c :: r => if ceqb c tab then split_fast [] (rev_append cur [] :: acc) r else split_fast (c :: cur) acc r
   end.
+(** H: which hypotheses of t2data_read_write_partial the object meets (after update_sections);
+   I: write / read / write / read / write in the model: second file = first up to trailing blanks, third = second *)
+Definition bit (b : bool) : ascii := if b then "1"%char else "0"%char.
+Definition show_hyps (d0 : t2d) : str :=
+  let d := set_sections d0 (update_sections d0) in
+  let ks := map l2s (sections d) in
+  [bit (forallb (fun k => existsb (String.eqb k) covered) ks);
+   bit (match write_lines d with Ok _ => true | Raise _ => false end);
+   bit (match xprec d with [] => true | _ => false end);
+   bit (is_end (end_keyword d)); bit (title_ok d); bit (chain_ok d ks (start_state d)); bit (hyps_ok d ks)].
+Definition rstrip_sp (s : str) : str := rstrip_by (fun c => ceqb c " "%char) s.
+Definition strip_line (l : str) : str :=
+  match rev l with c :: r => if ceqb c nl then rstrip_sp (rev r) +++ [nl] else rstrip_sp l | [] => [] end.
+Fixpoint file_eqb (a b : file) : bool :=
+  match a, b with [], [] => true | x :: a', y :: b' => str_eqb x y && file_eqb a' b' | _, _ => false end.
+Definition show_idem (d : t2d) : str :=
+  match write_lines d with
+  | Ok l1 => match read_lines l1 with
+             | Ok d1 => match write_lines d1 with
+                        | Ok l2 => match read_lines l2 with
+                                   | Ok d2 => match write_lines d2 with
+                                              | Ok l3 => [bit (file_eqb (map strip_line l1) (map strip_line l2)); bit (file_eqb l2 l3)]
+                                              | Raise _ => s2l "W3" end
+                                   | Raise _ => s2l "R2" end
+                        | Raise _ => s2l "W2" end
+             | Raise _ => s2l "R1" end
+  | Raise _ => s2l "W1" end.
 Definition run_case (line : str) : str :=
   match split_fast [] [] line with
   | k :: rest =>
@@ -49,6 +76,10 @@ Definition run_case (line : str) : str :=
             | Ok d => app (s2l "OK") (pr (et2d d) [])
             | Raise e => app (s2l "RAISE ") (show_exn e) end
         | _ => s2l "BADCASE" end
+      else if str_eqb k (s2l "H") then
+        match decode_obj rest with Ok d => show_hyps d | Raise _ => s2l "BADOBJ" end
+      else if str_eqb k (s2l "I") then
+        match decode_obj rest with Ok d => show_idem d | Raise _ => s2l "BADOBJ" end
       else s2l "BADCASE"
   | [] => s2l "BADCASE"
   end.
